@@ -346,14 +346,21 @@ class Gen:
         nblock = 0
         for tag in tags:
             body = []
-            nst = r.randint(1, 4)
+            nst = r.randint(1, 5)
             scripted = r.random() < self.k["scripts"]
             cur_script = None
             used_scripts, used_sl = set(), set()
             zero = {"ignore": [], "attach": None, "filter": None}
             cur_flag = zero
+            in_language = False
             for si in range(nst):
-                if scripted and si > 0 and r.random() < 0.6:
+                if scripted and si > 0 and in_language and r.random() < 0.35:
+                    # the script restated after a language statement: back to that script's default language system
+                    # (and the lookup flag is reset, as at every script statement)
+                    body.append(["script", cur_script])
+                    cur_flag = zero
+                    in_language = False
+                elif scripted and si > 0 and r.random() < 0.6:
                     free_langs = [l for l in LANGS if (cur_script, l) not in used_sl]
                     if cur_script is None or cur_script == "DFLT" or r.random() < 0.6 or not free_langs:
                         cands = [x for x in SCRIPTS + (["DFLT"] if cur_script is None else []) if x not in used_scripts]
@@ -362,6 +369,7 @@ class Gen:
                         cur_script = r.choice(cands)
                         used_scripts.add(cur_script)
                         body.append(["script", cur_script])
+                        in_language = False
                         cur_flag = zero  # the specification resets the lookup flag at a script statement
                         if r.random() < 0.3:
                             body.append(["language", "dflt", True])
@@ -370,6 +378,7 @@ class Gen:
                         lang = r.choice(free_langs)
                         used_sl.add((cur_script, lang))
                         body.append(["language", lang, r.random() < 0.6])
+                        in_language = True
                 choice = r.random()
                 if choice < 0.2 and self.named:
                     body.append(["ref", r.choice(sorted(self.named))])
